@@ -5,6 +5,7 @@ import (
 	"fmt"
 	"github.com/aml-org/amf-custom-validator/internal/misc"
 	"github.com/aml-org/amf-custom-validator/internal/parser/profile"
+	"strings"
 )
 
 func GeneratePattern(pattern profile.PatternRule, iriExpander *misc.IriExpander) []SimpleRegoResult {
@@ -16,10 +17,17 @@ func GeneratePattern(pattern profile.PatternRule, iriExpander *misc.IriExpander)
 	rego = append(rego, fmt.Sprintf("%s_array = %s with data.sourceNode as %s", checkVariable, pathResult.rule, pattern.Variable.Name))
 	rego = append(rego, fmt.Sprintf("%s = %s_array[_]", checkVariable, checkVariable))
 	// Add the validation
+	patternLiteral := fmt.Sprintf("`%s`", pattern.Argument)
+	if strings.Contains(pattern.Argument, "`") || strings.Contains(pattern.Argument, "$message") || strings.Contains(pattern.Argument, "$node") ||
+		strings.Contains(pattern.Argument, "$result") || strings.Contains(pattern.Argument, "$traceNode") {
+		// a raw string cannot hold a backtick, and $message/$node/$result/$traceNode would meet the generator's own
+		// template substitution: such patterns are written as an escaped, double-quoted string
+		patternLiteral = fmt.Sprintf("\"%s\"", misc.RegoStringContentNoTemplate(pattern.Argument))
+	}
 	if pattern.Negated {
-		rego = append(rego, fmt.Sprintf("regex.match(`%s`,%s)", pattern.Argument, checkVariable))
+		rego = append(rego, fmt.Sprintf("regex.match(%s,%s)", patternLiteral, checkVariable))
 	} else {
-		rego = append(rego, fmt.Sprintf("not regex.match(`%s`,%s)", pattern.Argument, checkVariable))
+		rego = append(rego, fmt.Sprintf("not regex.match(%s,%s)", patternLiteral, checkVariable))
 	}
 
 	tracePath, err := pattern.Path.Trace(iriExpander)
@@ -32,6 +40,10 @@ func GeneratePattern(pattern profile.PatternRule, iriExpander *misc.IriExpander)
 		escapedArgumentStringByes = []byte{}
 	}
 	escapedArgumentString := string(escapedArgumentStringByes)
+	if strings.Contains(patternLiteral, "\\u0024") {
+		// same for the copy of the pattern shown in the trace
+		escapedArgumentString = strings.ReplaceAll(escapedArgumentString, "$", "\\u0024")
+	}
 
 	r := SimpleRegoResult{
 		Constraint: "pattern",
